@@ -308,9 +308,6 @@ Qed.
 Section VectorLevel.
   Variable L : list param.
   Hypothesis Hwf : wf_plist L = true.
-  (* lists without floating-point fields: equality of content is identity of the tuples (with
-     them it is the field-wise equivalence of elem_equal_content_eqv) *)
-  Hypothesis Hnf : noflt L.
 
   Let HF : Forall wfp L := wf_plist_Forall L Hwf.
 
@@ -331,6 +328,10 @@ Section VectorLevel.
     - apply wf_plist_varying. exact Hwf.
     - destruct L; auto.
   Qed.
+
+  (* lists without floating-point fields: equality of content is identity of the tuples (with
+     them it is the field-wise equivalence of elem_equal_content_eqv) *)
+  Hypothesis Hnf : noflt L.
 
   Theorem ref_equal_content v1 l1 v2 l2 i j : Rep L v1 l1 -> Rep L v2 l2 ->
     (i < length l1)%nat -> (j < length l2)%nat ->
